@@ -274,27 +274,27 @@ def psk_map_rule(repo: Repo, rep: Report, ci: ClassInfo) -> int:
 
     evaluated = 0
     for gray in (True, False):
-        g, _node = label_generator(cc, {"self.gray_coding": gray, "not self.gray_coding": not gray})
-        if g not in ("id", "gray"):
-            continue
-        lab = (lambda i: i) if g == "id" else gf2.gray
-        body = configured(cc.body, lambda t, gray=gray: tv_eval(t, {"self.gray_coding": gray, "not self.gray_coding": not gray}))
-        sl = backward_slice(body, "bit_to_symbol_map", {"self", "torch"})
+        # the whole constructor body is run (own arithmetic): label table and inverse map as the code builds them
         bad = None
+        labs: Dict[int, list] = {}
         try:
             for b in (2, 3, 4, 5, 6):
-                env = run_fragment(sl, {}, {"self.order": 2**b, "self._bits_per_symbol": b, "self.gray_coding": gray})
-                mp = env.get("bit_to_symbol_map")
+                env = run_fragment(cc.body, {}, {"self.order": 2**b, "self._bits_per_symbol": b, "self.gray_coding": gray, "self.normalize": True}, max_steps=600000, materialise=True)
+                mp, bp = env.get("bit_to_symbol_map"), env.get("bit_patterns")
                 if not (isinstance(mp, list) and len(mp) == 2**b and all(isinstance(v, int) and not isinstance(v, bool) for v in mp)):
                     raise Unfoldable("map is not an integer list")
+                if not (isinstance(bp, list) and len(bp) == 2**b and all(isinstance(r, list) and len(r) == b and all(x in (0, 1) for x in r) for r in bp)):
+                    raise Unfoldable("label table is not a 0/1 matrix")
+                labs[b] = [int("".join(str(int(x)) for x in r), 2) for r in bp]
                 for i in range(2**b):
-                    if mp[lab(i)] != i:
-                        bad = (b, i, lab(i), mp[lab(i)])
+                    if mp[labs[b][i]] != i:
+                        bad = (b, i, labs[b][i], mp[labs[b][i]])
                         break
                 if bad:
                     break
-        except (Unfoldable, FragRaise, FragReturn, IndexError, TypeError):
+        except (Unfoldable, FragRaise, FragReturn, IndexError, TypeError, ValueError):
             continue
+        lab = lambda i, _l=labs, _b=(bad[0] if bad else 2): _l[_b][i]  # noqa: E731
         evaluated += 1
         n += 1
         what = f"{ci.name}(gray_coding={gray}): bit_to_symbol_map tabulated for orders 4..64"
@@ -559,6 +559,7 @@ def demod_rule(rep: Report, ci: ClassInfo, fi: FuncInfo, tables: List[str]) -> i
 
 def rule_sign(repo: Repo, rep: Report) -> int:
     n = 0
+    _REPO[:] = [repo]
     # BPSK
     mod = repo.method(repo.cls(f"{MD}/psk.py", "BPSKModulator"), "forward")
     dem = repo.method(repo.cls(f"{MD}/psk.py", "BPSKDemodulator"), "forward")
@@ -653,12 +654,41 @@ def sign_compose(rep: Report, mod: FuncInfo, body, dem: FuncInfo, dem_in: str, w
     return 1
 
 
+_REPO: List[Repo] = []
+
+
+def sign_polarity_fallback(rep: Report, mod: FuncInfo, dem: FuncInfo, what: str, why: str) -> int:
+    """The named statements of the closed-form rails are gone (refactored): decide the composition with the polarity
+    engine instead - monotonicity of the transmitted amplitude in the bit and of the decided bit in the received
+    amplitude (whole forward functions, helper methods followed)."""
+    from ..polarity import D as PD, I as PI, T as PT, is_top
+    from .c15 import HARD_ATOMS, modulator_amplitude_polarity, run_forward
+
+    repo = _REPO[0]
+    dci = dem.cls
+    amp = modulator_amplitude_polarity(repo, dci)
+    hi = run_forward(repo, dci, dem, HARD_ATOMS)
+    pys = set()
+    for v, r, _e in hi.returns:
+        if v is None:
+            continue
+        pys.add(PT if is_top(v) else v.p("y"))
+    if amp not in (PI, PD) or not pys or PT in pys or len(pys) != 1:
+        rep.undecided("SIGN", mod, what, f"{why}; polarity fallback: modulator {amp}, decision {sorted(map(str, pys))}")
+        return 1
+    py = pys.pop()
+    if py == amp:
+        rep.ok("SIGN", dem, f"{what}: amplitude is {amp} in the bit, decided bit is {py} in the received amplitude", "the two monotone maps compose to the identity on {0, 1} (polarity engine; statement names not found)")
+    else:
+        rep.violation("SIGN", dem, f"{what}: amplitude is {amp} in the bit, decided bit is {py} in the received amplitude", "the decision is the complement of the transmitted bit")
+    return 1
+
+
 def sign_rail(rep: Report, mod: FuncInfo, dem: FuncInfo, amp_name: str, dec_name: str, norm: float, what: str) -> int:
     a = [s for s in ast.walk(mod.node) if isinstance(s, ast.Assign) and isinstance(s.targets[0], ast.Name) and s.targets[0].id == amp_name]
     d = [s for s in ast.walk(dem.node) if isinstance(s, ast.Assign) and isinstance(s.targets[0], ast.Name) and s.targets[0].id == dec_name]
     if len(a) != 1 or len(d) != 1:
-        rep.undecided("SIGN", mod, what, f"{len(a)} amplitude / {len(d)} decision statements named {amp_name}/{dec_name}")
-        return 1
+        return sign_polarity_fallback(rep, mod, dem, what, f"{len(a)} amplitude / {len(d)} decision statements named {amp_name}/{dec_name}")
     # local single assignments are followed back to the bit tensor; `x_reshaped` (..., N, 2) is modelled by its two rails
     single: Dict[str, List[ast.AST]] = {}
     for s_ in ast.walk(mod.node):
